@@ -54,12 +54,25 @@ RULE = (
     "a pandas Index): nothing or a selection that STILL mixes both kinds, then copy() / mkdm(**to_dict()) once or twice, then "
     "further selections by the same labels and again a copy / round trip (one case in five an ordinary random chain); labels "
     "are observed and compared WITH THEIR TYPES (gen.lab: 2019 is not '2019') on every link, the model sees the same text form. "
+    "A fixed stream of ALL-INTEGER matrices (every criterion int64) in which every criterion holds values float64 cannot "
+    "represent (odd magnitudes in (2^53, 2^62]: 2^53+1, 64-bit ids) next to small ones: nothing or 1-2 selections (dm[...] / loc / "
+    "iloc), then copy() / mkdm(**to_dict()) once or twice and maybe more links; every second case a history whose copies "
+    "replace weights / objectives / labels / matrix (mostly the documented dm.copy(**kwargs); never the dtypes, which would be a "
+    "conversion the caller asked for); cells are compared as exact integers on every link. "
+    "A fixed stream of BOOLEAN pandas SERIES used as row masks, dm[mask] / dm.loc[mask] / dm.loc[mask, columns] (alone, after "
+    "1-2 selections, followed by copy / round trips / further links, sometimes twice): the Series is indexed by exactly the "
+    "alternatives of the matrix IN ANOTHER ORDER and is not symmetric under that permutation (by position it would keep other "
+    "alternatives than by label); half of them are computed by the code itself on a re-ordered derived matrix "
+    "(cur.loc[perm].matrix[crit] >= t), the others built with an explicit index. Oracle: the alternatives marked True BY LABEL "
+    "survive, in the order of the matrix (pandas aligns a boolean Series key with the axis); the model is asked with the "
+    "equivalent plain mask. "
     "Thorough adds ALL chains of length <= 2 over a fixed selector alphabet on a 3x3 matrix. Alias stream: every alias of "
     "the code, upper/lower/title variants of the string ones, and non-aliases. Non-trivial: the chain changes the order or "
     "the set of criteria or alternatives at least once (or an alias case); distinct by case hash."
 )
 ASSUMPTIONS = [
-    "integer cells are below 2^53 in magnitude: a row Series (loc[a]) and to_dict()/copy() of a matrix with mixed dtypes go "
+    "in matrices that have a float64 criterion, integer cells are below 2^53 in magnitude (all-integer matrices carry values up "
+    "to 2^62, compared exactly): a row Series (loc[a]) and to_dict()/copy() of a matrix with mixed dtypes go "
     "through float64, so larger int64 values are rounded by the real code (observed: 9007199254740993 -> ...992); the "
     "rational model cannot exhibit this",
     "labels are unique strings or whole numbers >= 1000 (never a position); a request that names a label twice is outside the "
@@ -70,6 +83,8 @@ ASSUMPTIONS = [
     "by pandas) are not generated; the index of to_dataframe() (alternatives stacked under 'objectives'/'weights') is compared as text",
     "label slices with a step are not generated; a label slice whose endpoint is missing is only checked by label "
     "(pandas answers by insertion point on a monotonic index, KeyError otherwise; the model mirrors both)",
+    "a boolean Series used as a mask is indexed by exactly the labels of the axis (a Series that misses labels is refused by "
+    "pandas as unalignable; iloc refuses any indexed mask): neither is generated",
     "pandas selection semantics is external: modelled in Lean, validated here (exhaustively on 3x3 in the thorough tier)",
 ]
 PARTIAL = (
@@ -147,7 +162,20 @@ def req_label(labels, sel):
         return ("ok", [x for x, m in zip(labels, v) if m]) if len(v) == n else ("bad", None)
     if k == "all":
         return ("ok", list(labels))
+    if k == "smask":
+        return req_smask(labels, v)
     raise KeyError(k)
+
+
+def req_smask(labels, sm):
+    """a boolean pandas SERIES as a mask: {"index": the labels in the SERIES' own order, "values": the booleans in that
+    order}.  pandas documents that such a key is ALIGNED BY LABEL with the axis: the labels marked True survive, in the
+    order of the matrix.  Only Series indexed by exactly the labels of the axis are generated (anything else: pandas decides)"""
+    idx, vals = list(sm["index"]), list(sm["values"])
+    if len(idx) != len(vals) or len(idx) != len(labels) or len(set(idx)) != len(idx) or set(idx) != set(labels):
+        return ("unknown", None)
+    marked = {x for x, m in zip(idx, vals) if m}
+    return ("ok", [x for x in labels if x in marked])
 
 
 def req_pos(labels, sel):
@@ -201,6 +229,9 @@ def requested(alts, crits, step):
             if len(v) != len(alts):
                 return "bad", "frame", None, None
             return "ok", "frame", [x for x, m in zip(alts, v) if m], list(crits)
+        if k == "smask":  # dm[boolean Series]: rows, aligned by label
+            st, a = req_smask(alts, v)
+            return st, "frame", a, list(crits)
         raise KeyError(k)
     f = req_label if kind == "loc" else req_pos
     rs, cs = step["rows"], step.get("cols")
@@ -883,6 +914,142 @@ def mixed_cases(rng, n):
     return out
 
 
+# ------------------------------------------------------------------------------------------ 64-bit integers
+# An all-integer matrix holds int64 values that float64 cannot represent (ids, nanosecond timestamps): every derivation
+# must hand them on EXACTLY -- nothing in the property allows a detour through floating point.
+
+
+def _big_int(rng):
+    """an int64 of magnitude in (2^53, 2^62] that is ODD, hence not a float64"""
+    r = rng.random()
+    if r < 0.4:
+        v = 2 ** 53 + rng.choice([1, 3, 5, 7, 2 * rng.randint(4, 10 ** 6) + 1])
+    elif r < 0.5:
+        v = 2 ** 62 - rng.choice([1, 3, 5, 2 * rng.randint(3, 10 ** 9) + 1])
+    else:
+        v = rng.randint(2 ** 53, 2 ** 62 - 1) | 1
+    return -v if rng.random() < 0.3 else v
+
+
+def big_dm(rng):
+    """a matrix whose criteria are ALL int64; every criterion holds at least one value float64 cannot represent"""
+    dm = dm_case(rng, shared_labels=rng.choice(["some", "all"]) if rng.random() < 0.125 else False)
+    m, n = len(dm["alternatives"]), len(dm["criteria"])
+    p = rng.choice([0.2, 0.5, 1.0])
+    rows = [[(_big_int(rng) if rng.random() < p else rng.choice([rng.randint(-50, 50), rng.randint(-(2 ** 40), 2 ** 40)])) for _ in range(n)]
+            for _ in range(m)]
+    for j in range(n):
+        rows[rng.randrange(m)][j] = _big_int(rng)
+    dm["matrix"], dm["dtypes"] = rows, ["int"] * n
+    return dm
+
+
+def _no_dtypes(rng, ev):
+    """(an int64 -> float64 replacement of the dtypes is a conversion the caller ASKED for: not on these matrices)"""
+    for repl in ev["copies"]:
+        repl.pop("dtypes", None)
+        if not repl:
+            repl["weights"] = G.weights(rng, len(ev["_c"]), "dyadic")
+    ev.pop("_c")
+    return ev
+
+
+def bigint_cases(rng, n):
+    """ALL-INTEGER matrices with values beyond 2^53: [0-2 selections] then copy() / mkdm(**to_dict()) (once or twice) and
+    maybe more links; every second case a HISTORY: copies with weights / objectives / labels / matrix replaced (mostly
+    through the documented dm.copy(**kwargs)) of the source or of a derived matrix, then plain derivations of it"""
+    out = []
+    for i in range(n):
+        dm = big_dm(rng)
+        alts, crits = list(dm["alternatives"]), list(dm["criteria"])
+        pre, a, c = ([], alts, crits) if i % 4 in (0, 2) else _prefix(rng, dm, p=1.0)
+        chain = pre + [{"kind": "copy" if rng.random() < 0.7 else "roundtrip"}]
+        if rng.random() < 0.3:
+            chain.append({"kind": rng.choice(["copy", "roundtrip"])})
+        chain += _tail(rng, a, c, p=0.4)
+        case = {"kind": "chain", "dm": dm, "chain": chain, "big": True}
+        if i % 2:
+            ev = _event(rng, dm, len(pre), a, c)
+            if rng.random() < 0.7:
+                ev["via"] = "copy"
+            ev["_c"] = c
+            case["side"] = [_no_dtypes(rng, ev)]
+        out.append(case)
+    return out
+
+
+# ------------------------------------------------------------------------------------------ boolean Series as a row mask
+# dm[mask] / dm.loc[mask] with `mask` a boolean pandas Series: the usual way to filter alternatives
+# (dm[other.matrix["c"] >= t]).  The Series names the alternatives in ITS OWN order; pandas aligns it by label.
+
+
+def _series_mask(rng, dm, a, c):
+    """a Series mask over the alternatives `a`, indexed in ANOTHER order and not symmetric under that permutation (read by
+    position it would keep other alternatives than read by label); half of them are COMPUTED by the real code on a
+    re-ordered derived matrix (`cur.loc[perm].matrix[crit] >= thr`), the others built with an explicit index"""
+    ai = {x: i for i, x in enumerate(dm["alternatives"])}
+    ci = {x: j for j, x in enumerate(dm["criteria"])}
+    for _ in range(40):
+        perm = rng.sample(a, len(a))
+        if rng.random() < 0.3:
+            perm = list(reversed(a))
+        by = None
+        if c and rng.random() < 0.5:
+            crit = rng.choice(c)
+            col = {x: dm["matrix"][ai[x]][ci[crit]] for x in a}
+            thr = col[rng.choice(a)]
+            op = rng.choice([">=", ">", "<=", "<"])
+            f = {">=": lambda v: v >= thr, ">": lambda v: v > thr, "<=": lambda v: v <= thr, "<": lambda v: v < thr}[op]
+            vals = [bool(f(col[x])) for x in perm]
+            by = [crit, thr, op]
+        else:
+            vals = _mask(rng, len(a))
+        marked = {x for x, m in zip(perm, vals) if m}
+        if [x in marked for x in a] != vals:  # by label != by position
+            sm = {"index": perm, "values": vals}
+            if by:
+                sm["by"] = by
+            return sm
+    return None
+
+
+def smask_cases(rng, n):
+    """[0-2 selections] then dm[mask] / dm.loc[mask] / dm.loc[mask, columns] with a boolean Series in another order than
+    the matrix, then maybe copy() / a round trip / further links (sometimes a second Series mask)"""
+    out = []
+    while len(out) < n:
+        i = len(out)
+        nn = rng.randint(1, 6)
+        dm = dm_case(rng, m=rng.choice([k for k in range(2, 10) if k != nn]), n=nn,
+                     shared_labels="some" if rng.random() < 0.125 else False)
+        pre, a, c = _prefix(rng, dm, p=0.4)
+        if len(a) < 2:
+            pre, a, c = [], list(dm["alternatives"]), list(dm["criteria"])
+        chain = list(pre)
+        for rep in range(2 if rng.random() < 0.2 else 1):
+            sm = _series_mask(rng, dm, a, c) if len(a) >= 2 else None
+            if sm is None:
+                break
+            if (i + rep) % 2 == 0:
+                step = {"kind": "getitem", "sel": {"smask": sm}}
+            else:
+                step = {"kind": "loc", "rows": {"smask": sm}}
+                if rng.random() < 0.5:
+                    step["cols"] = gen_label_sel(rng, c, allow_one=rng.random() < 0.3)
+            chain.append(step)
+            ok, a, c = _walk(dm["alternatives"], dm["criteria"], chain)
+            if not ok:
+                break
+            if rng.random() < 0.4:
+                chain.append({"kind": rng.choice(["copy", "roundtrip"])})
+        else:
+            chain += _tail(rng, a, c, p=0.4)
+        if not any("smask" in (st.get("sel") or st.get("rows") or {}) for st in chain):
+            continue
+        out.append({"kind": "chain", "dm": dm, "chain": chain, "smask": True})
+    return out
+
+
 def gen(ctx):
     rng = ctx.rng
     cases = alias_cases()
@@ -895,6 +1062,8 @@ def gen(ctx):
     cases += zero_weight_cases(rng, ctx.n(150, 1000))
     cases += history_cases(rng, ctx.n(300, 2500))  # a fixed share of every run, not a branch of the random stream
     cases += mixed_cases(rng, ctx.n(300, 2500))  # mixed-type labels: a fixed share of every run as well
+    cases += bigint_cases(rng, ctx.n(240, 1600))  # all-integer matrices beyond 2^53: a fixed share of every run
+    cases += smask_cases(rng, ctx.n(240, 1600))  # boolean Series masks in another order than the matrix: the same
     if ctx.thorough:
         cases += exhaustive_cases()
     return cases
@@ -908,6 +1077,8 @@ def search_gen(ctx):
         cases.append({"kind": "chain", "dm": dm, "chain": gen_chain(rng, dm, rng.randint(1, 2))})
     cases += history_cases(rng, 600)
     cases += mixed_cases(rng, 400)
+    cases += bigint_cases(rng, 300)
+    cases += smask_cases(rng, 300)
     return cases
 
 
@@ -962,10 +1133,25 @@ def build_dm(d):
     )
 
 
-def _pysel(s, positional):
+def _series(dm, sm):
+    """the boolean Series of a Series-mask selector: computed on a re-ordered derived matrix when the case says how
+    (`by` = criterion, threshold, comparison), otherwise built with the explicit index"""
+    import operator
+    import pandas as pd
+
+    if sm.get("by"):
+        crit, thr, op = sm["by"]
+        col = dm.loc[list(sm["index"])].matrix[crit]
+        return {">=": operator.ge, ">": operator.gt, "<=": operator.le, "<": operator.lt}[op](col, thr)
+    return pd.Series([bool(b) for b in sm["values"]], index=pd.Index(list(sm["index"]), dtype=object), dtype=bool)
+
+
+def _pysel(s, positional, dm=None):
     if s is None:
         return None
     (k, v), = s.items()
+    if k == "smask":
+        return _series(dm, v)
     if k in ("one", "many", "mask"):
         return v
     if k == "slice":
@@ -985,10 +1171,10 @@ def apply_step(dm, step):
         return skc.mkdm(**dm.to_dict())
     if kind == "getitem":
         (k, v), = step["sel"].items()
-        key = slice(*v) if k in ("rows", "rowsL") else v
+        key = slice(*v) if k in ("rows", "rowsL") else _series(dm, v) if k == "smask" else v
         return dm[key]
     acc = dm.loc if kind == "loc" else dm.iloc
-    r = _pysel(step["rows"], kind == "iloc")
+    r = _pysel(step["rows"], kind == "iloc", dm)
     if step.get("cols") is None:
         return acc[r]
     return acc[r, _pysel(step["cols"], kind == "iloc")]
@@ -1036,6 +1222,8 @@ def _canon(case):
             return {k: _labs(v)}
         if k == "slice":
             return {k: [None if e is None else str(G.lab(e)) for e in v]}
+        if k == "smask":
+            return {k: dict(v, index=_labs(v["index"]))}
         return x
 
     def link(st):
@@ -1047,6 +1235,8 @@ def _canon(case):
                 return {"kind": "getitem", "sel": {k: _labs(v)}}
             if k == "rowsL":
                 return {"kind": "getitem", "sel": {k: [None if e is None else str(G.lab(e)) for e in v]}}
+            if k == "smask":
+                return {"kind": "getitem", "sel": {k: dict(v, index=_labs(v["index"]))}}
             return st
         if st["kind"] == "loc":
             o = {"kind": "loc", "rows": sel(st["rows"])}
@@ -1217,15 +1407,40 @@ def model_dm(d):
     }
 
 
+def _model_chain(d, chain):
+    """the chain as the model is asked: a boolean SERIES mask is, by the pandas documentation, the plain boolean mask that
+    marks the same LABELS in the order of the axis -- the model gets that mask (an existing request shape), computed here on
+    plain lists from the labels the chain has reached; every other link is passed as it is"""
+    if not any("smask" in (st.get("sel") or st.get("rows") or {}) for st in chain):
+        return chain
+    a, c, live, out = list(d["alternatives"]), list(d["criteria"]), True, []
+    for st in chain:
+        sm = (st.get("sel") or st.get("rows") or {}).get("smask")
+        if sm is not None:
+            marked = {x for x, m in zip(sm["index"], sm["values"]) if m}
+            plain = [x in marked for x in a] if live and set(sm["index"]) == set(a) and len(sm["index"]) == len(a) else list(sm["values"])
+            st2 = {"kind": "getitem", "sel": {"mask": plain}} if st["kind"] == "getitem" else dict(st, rows={"mask": plain})
+        else:
+            st2 = st
+        out.append(st2)
+        if live:
+            s_, form, a2, c2 = requested(a, c, st)
+            if s_ != "ok" or form == "scalar" or has_dup(a2, c2):
+                live = False
+            else:
+                a, c = a2, c2
+    return out
+
+
 def requests(case, obs):
     if case["kind"] == "alias":
         return [{"op": "alias", "key": case["key"]}]
     case = _canon(case)
-    reqs = [{"op": "sel", "dm": model_dm(case["dm"]), "chain": case["chain"], "version": case.get("version", "fixed")}]
+    reqs = [{"op": "sel", "dm": model_dm(case["dm"]), "chain": _model_chain(case["dm"], case["chain"]), "version": case.get("version", "fixed")}]
     for ev in case.get("side", []):
         # a branch derived from the object after `at` links is, for the model, the chain up to there followed by the branch
         for branch in ev["then"]:
-            reqs.append({"op": "sel", "dm": model_dm(case["dm"]), "chain": case["chain"][:ev["at"]] + branch, "version": case.get("version", "fixed")})
+            reqs.append({"op": "sel", "dm": model_dm(case["dm"]), "chain": _model_chain(case["dm"], case["chain"][:ev["at"]] + branch), "version": case.get("version", "fixed")})
     return reqs
 
 
@@ -1505,6 +1720,10 @@ def tags(case, obs):
             extra.append("mixed-labels:string-spelled-like-a-number")
     else:
         extra = []
+    if case.get("big"):
+        extra.append("all-int-beyond-2^53")
+    if case.get("smask"):
+        extra.append("series-mask-other-order")
     case = _canon(case)
     t = extra + ["chain", "len=%d" % len(case["chain"]), "shape=%dx%d" % (len(case["dm"]["alternatives"]), len(case["dm"]["criteria"]))]
     if case.get("ex"):
